@@ -12,16 +12,19 @@ package goja
 //@ axiom specFloatValueIs(_negativeInf, math.Inf(-1)) [neginf]
 
 //@ func intToValue
+//@   props C05
 //@   ensures specCanon(result) [canon]
 //@   ensures specNumIs(result, float64(i)) [value]
 //@   assigns nothing
 
 //@ func floatToInt
+//@   props C05
 //@   ensures ok ==> float64(result) == f && result >= -maxInt && result <= maxInt && !(f == 0 && math.Signbit(f)) [ok-exact]
 //@   ensures !ok ==> !(f == math.Trunc(f) && f >= -maxInt && f <= maxInt) || (f == 0 && math.Signbit(f)) [notok-nonint]
 //@   assigns nothing
 
 //@ func floatToValue
+//@   props C05
 //@   ensures specCanon(result) [canon]
 //@   ensures specNumIs(result, f) [value]
 //@   assigns nothing
